@@ -41,11 +41,65 @@ def ill_scaled(rng, inst, p=0.1):
     return inst
 
 
+def tiny_units(rng, inst, p=0.08):
+    """a change of units that makes every exponent a small multiple of 4e-7 (on the 7-decimal grid the constructor keeps): rank decisions
+    on the exponent differences (kernel_basis) must not depend on the unit"""
+    if inst['X'] is not None or inst.get('xscale') or rng.random() >= p:
+        return inst
+    sc = F(4, 10 ** 7)
+    inst['alpha'] = [[common.frac_str(F(x) * sc) for x in r] for r in inst['alpha']]
+    inst['xscale'] = [float(1 / sc)] * inst['n']
+    inst['tiny'] = True
+    return inst
+
+
+def exact_rank(rows):
+    """rank of a rational matrix by exact elimination"""
+    A = [[F(x) for x in r] for r in rows]
+    rk, col, ncols = 0, 0, len(A[0]) if A else 0
+    while rk < len(A) and col < ncols:
+        piv = next((r for r in range(rk, len(A)) if A[r][col] != 0), None)
+        if piv is None:
+            col += 1
+            continue
+        A[rk], A[piv] = A[piv], A[rk]
+        for r in range(rk + 1, len(A)):
+            if A[r][col] != 0:
+                f = A[r][col] / A[rk][col]
+                A[r] = [a - f * b_ for a, b_ in zip(A[r], A[rk])]
+        rk += 1
+        col += 1
+    return rk
+
+
+def basis_hypothesis(inst, b):
+    """the hypothesis `primal_sound` carries for kernel-basis witnesses (mat @ B = 0), and the one `kernel_basis_equiv` carries
+    (range B = ker mat): checked on the basis the real constructor computed; returns a description of what fails, or None"""
+    con = b.con
+    alpha = [[F(x) for x in r] for r in inst['alpha']]
+    for i, B in getattr(con, '_nu_bases', {}).items():
+        cov = [j for j, bit in enumerate(np.asarray(con.ech.covers[i]).tolist()) if bit]
+        B = np.asarray(B, dtype=float)
+        if not cov or B.size == 0:
+            continue
+        mat = [[alpha[j][k] - alpha[i][k] for j in cov] for k in range(inst['n'])]          # n x |cover|
+        matf = np.array([[float(x) for x in r] for r in mat])
+        scale = float(np.max(np.abs(matf))) * max(1.0, float(np.max(np.abs(B))))
+        resid = float(np.max(np.abs(matf @ B))) if matf.size else 0.0
+        nullity = len(cov) - exact_rank(mat)
+        if resid > 1e-9 * max(scale, 1e-300) or B.shape[1] != nullity:
+            return ('kernel basis of AGE cone %d: max |mat @ B| = %.3e (entries of mat up to %.3e), %d basis vectors for a kernel of dimension %d'
+                    % (i, resid, float(np.max(np.abs(matf))), B.shape[1], nullity))
+    return None
+
+
 def structural(ctx, rng, count, all32):
     cases, lines, outs = [], [], []
     for k in range(count):
-        inst = ill_scaled(rng, sm.gen_instance(rng, primal=True))
+        inst = tiny_units(rng, ill_scaled(rng, sm.gen_instance(rng, primal=True)))
         setts = list(sm.all_settings()) if all32 else [sm.DEFAULTS] + [sm.rand_settings(rng) for _ in range(3)]
+        if inst.get('tiny') and not all32:
+            setts[1] = dict(setts[1], kernel_basis=True)
         for s in setts:
             try:
                 b = sm.build(inst, s)
@@ -56,6 +110,11 @@ def structural(ctx, rng, count, all32):
                 lines.append(None)
                 outs.append(None)
                 continue
+            if s['kernel_basis'] and inst['X'] is None:
+                whyb = basis_hypothesis(inst, b)
+                ctx.count('stream:kernel-basis-hypothesis')
+                if whyb:
+                    ctx.disagreement('kernel-basis hypothesis', {'inst': inst, 'settings': s}, {'basis': whyb}, {'basis': 'mat @ B = 0, range B = ker mat'})
             line = sm.model_line(inst, s, b)
             if not b.con.variables():
                 ctx.count('skipped:constraint-without-variables')
